@@ -1064,6 +1064,26 @@ func (m *Mon) stepC09(sc *StepCtx, si stepInfo) {
 			m.hit("C09", "removed", cls)
 			if !sc.IsBlock() {
 				m.fail(sc, "C09", "removed-only-at-block-end", cls, "context %.16s disappeared in %s", id, sc.Step.Desc)
+			} else {
+				// a context's life ends only by kill or because it has no batch left: a one-shot context
+				// whose batch has expired, a repeated one that reached its total. Anything else that is
+				// removed (a context paused for lack of funds, a paused context with batches left, ...)
+				// was "completed" by something that is neither kill nor exhaustion.
+				hadExp := false
+				for _, e := range pre.ExpQ[id] {
+					if e == pre.Height {
+						hadExp = true
+					}
+				}
+				wasKilled := a.State == types.COMPLETED
+				if t := m.ctxs[id]; t != nil && t.Killed {
+					wasKilled = true
+				}
+				exhausted := hadExp && (!a.Repeated || (a.RepeatedTotal > 0 && int64(a.BatchCounter) >= a.RepeatedTotal))
+				m.hit("C09", "ended-only-when-finished", fmt.Sprintf("killed%v/exhausted%v/st-%s", wasKilled, exhausted, a.State))
+				if !wasKilled && !exhausted {
+					m.fail(sc, "C09", "ended-only-when-finished", fmt.Sprintf("%s/rep%v/exp%v", a.State, a.Repeated, hadExp), "context %.16s (state %s, repeated=%v, batch %d of total %d, batch expiring in this block: %v) was removed at the end of block %d although it was neither killed nor out of batches", id, a.State, a.Repeated, a.BatchCounter, a.RepeatedTotal, hadExp, pre.Height)
+				}
 			}
 			continue
 		}
